@@ -315,6 +315,24 @@ def runSched (j : Json) : Json :=
         (List.range (L - b + 1).toNat).all (fun k =>
           let i := b + (k : Int)
           !(e.onShift r i && !e.leaveMark r i) || !(σ.led.get r i).usage.isEmpty || exhaustedB e σ t r i))))
+  -- C08.no_idle_final_alap_with_alternative: backward, both candidates leaves
+  let altAlapTasks := altTasks.filter (fun t =>
+    let d := e.taskD t
+    !(σ.tst t).forward && (d.alloc ++ d.alt).all (fun r => (e.resD r).leaf))
+  let altAlapEndFail := altAlapTasks.filter (fun t =>
+    match (σ.tst t).stop with
+    | some v => !decide (v ≤ deadlineG e (loopStart e) σ t)
+    | none => true)
+  let altAlapIdleFail := altAlapTasks.filter (fun t =>
+    !(((e.taskD t).alloc ++ (e.taskD t).alt).any (fun r =>
+      let booked := (σ.led.m.toList.filter (fun (ks : Key × Slot) => ks.1.1 == r && (usageOf ks.2.usage t).isSome)).map (fun ks => ks.1.2)
+      let hi := e.idx (deadlineG e (loopStart e) σ t) - 1
+      match booked.foldl (fun (m : Option Int) i => match m with | none => some i | some x => some (min x i)) none with
+      | none => false
+      | some L =>
+        (List.range (hi - L + 1).toNat).all (fun k =>
+          let i := L + (k : Int)
+          !(e.onShift r i && !e.leaveMark r i) || !(σ.led.get r i).usage.isEmpty || exhaustedB e σ t r i))))
   -- C07.alternative_earliest_fit, with the loop's own order
   let altFitFail := altIdleTasks.filter (fun t =>
     let pre := (order.dropWhile (fun x => x != t)).drop 1
@@ -385,6 +403,8 @@ def runSched (j : Json) : Json :=
                          ("alt_framed_fail", Json.num (JsonNumber.fromNat altFrameFail.length)),
                          ("alt_idle_tasks", Json.num (JsonNumber.fromNat altIdleTasks.length)), ("alt_idle_fail", Json.num (JsonNumber.fromNat altIdleFail.length)),
                          ("alt_fit_fail", Json.num (JsonNumber.fromNat altFitFail.length)),
+                         ("alt_alap_tasks", Json.num (JsonNumber.fromNat altAlapTasks.length)), ("alt_alap_idle_fail", Json.num (JsonNumber.fromNat altAlapIdleFail.length)),
+                         ("alt_alap_end_fail", Json.num (JsonNumber.fromNat altAlapEndFail.length)),
                          ("teams_any", Json.num (JsonNumber.fromNat anyTeams.length)), ("team_same_fail", Json.num (JsonNumber.fromNat sameFail.length)),
                          ("fwd_scheduled", Json.num (JsonNumber.fromNat fwds.length)), ("dep_edges", Json.num (JsonNumber.fromNat depPairs.length)),
                          ("dep_fail", Json.num (JsonNumber.fromNat depFail.length)),
